@@ -12,8 +12,18 @@
                                      protein group g (through peptide_map, or the decoy map for a target-only FASTA)
      pk_pair_key P g               : protein_map.get(x, x) of the first member of g — the identity of the pair
      pk_order_ok                   : contract of the sample oracle: every retained row label is drawn
-     is_qvalue                     : the C01 specification of a TDC q-value (Proofs/TdcP.v) *)
-From Mokaverif Require Import Model.Base Model.Strip Model.Tdc Model.Picked Proofs.TdcP Proofs.StripP Proofs.PickedP.
+     is_qvalue                     : the C01 specification of a TDC q-value (Proofs/TdcP.v)
+     md_match im perm ds ts        : peptides.match_decoy(ds, ts, ignore_mods=im) as the item list of the returned dict
+                                     (Model/MatchDecoy.v): targets sorted, shuffled by the recorded positions perm (oracle
+                                     for Series.sample; contract: a permutation of 0..n-1), grouped by composition key,
+                                     handed out to the decoys in order by list.pop()
+     md_steps im perm ds ts        : the same, one step per decoy OCCURRENCE: (decoy, Some target | None)
+     md_matched st                 : the (decoy, target) pairs of the steps that found a target
+     md_dkey / md_tkey im          : composition key of a decoy / of a target as the code computes them
+     md_count key k l              : how many strings of l have composition key k *)
+From Coq Require Import Permutation.
+From Mokaverif Require Import Model.Base Model.Strip Model.Tdc Model.Picked Model.MatchDecoy
+  Proofs.TdcP Proofs.StripP Proofs.PickedP Proofs.MatchDecoyP.
 Open Scope Z_scope.
 
 (* ---------- modifications and flanking residues are ignored ---------- *)
@@ -235,3 +245,97 @@ Example C15_ex_errors :
   pk_picked ex_P [] [] [] = Err EKey /\
   pk_picked ex_P [] [0]%nat [ {| pk_target := true; pk_pep := [81;81]; pk_score := 1 |} ] = Err EValue.
 Proof. vm_compute. split; reflexivity. Qed.
+
+(* ---------- target-only FASTA: peptides.match_decoy (the table dm of the theorems above) ---------- *)
+(* every decoy is matched to one of the targets, of the same composition *)
+Theorem C15_match_decoy_composition : forall im perm ds ts m,
+  md_match im perm ds ts = Ok m ->
+  forall d t, In (d, t) m -> In d ds /\ In t ts /\ md_dkey d = md_tkey im t.
+Proof. exact md_match_composition. Qed.
+Print Assumptions C15_match_decoy_composition.
+
+(* what "same composition" means for peptides written in upper-case letters (the only call in mokapot passes
+   stripped sequences and ignore_mods=True): the decoy is an anagram of its target *)
+Theorem C15_match_decoy_anagram : forall perm ds ts m,
+  md_match true perm ds ts = Ok m ->
+  forall d t, In (d, t) m -> Forall (fun c => md_is_upper c = true) d -> Permutation d t.
+Proof. exact md_match_anagram. Qed.
+Print Assumptions C15_match_decoy_anagram.
+
+Theorem C15_match_decoy_keys_agree : forall s,
+  Forall (fun c => md_is_upper c = true) s -> md_key_mods s = md_key_plain s.
+Proof. exact md_key_mods_upper. Qed.
+Print Assumptions C15_match_decoy_keys_agree.
+
+Theorem C15_match_decoy_plain_key : forall a b, md_key_plain a = md_key_plain b <-> Permutation a b.
+Proof. exact md_key_plain_anagram. Qed.
+Print Assumptions C15_match_decoy_plain_key.
+
+(* no target is handed out twice: the targets of the matched decoy occurrences are a sub-multiset of the targets *)
+Theorem C15_match_decoy_injective : forall im perm ds ts st,
+  md_steps im perm ds ts = Ok st ->
+  exists rest, Permutation (map snd (md_matched st) ++ rest) ts.
+Proof. exact md_steps_injective. Qed.
+Print Assumptions C15_match_decoy_injective.
+
+(* with distinct targets (keys of peptide_map): distinct decoys get distinct targets *)
+Theorem C15_match_decoy_injective_dict : forall im perm ds ts m,
+  md_match im perm ds ts = Ok m -> NoDup ts -> NoDup (map fst m) /\ NoDup (map snd m).
+Proof. exact md_match_injective. Qed.
+Print Assumptions C15_match_decoy_injective_dict.
+
+(* one step per decoy, in order; the i-th decoy goes without a target iff the earlier decoys of its composition
+   already took every target of that composition *)
+Theorem C15_match_decoy_exhausts : forall im perm ds ts st,
+  md_steps im perm ds ts = Ok st ->
+  map fst st = ds /\
+  forall i d o, nth_error st i = Some (d, o) ->
+    (o = None <-> (md_count (md_tkey im) (md_dkey d) ts <= md_count md_dkey (md_dkey d) (firstn i ds))%nat).
+Proof. exact md_steps_exhausts. Qed.
+Print Assumptions C15_match_decoy_exhausts.
+
+(* ... so per composition min(#decoys, #targets) decoys are matched *)
+Theorem C15_match_decoy_count : forall im perm ds ts st,
+  md_steps im perm ds ts = Ok st ->
+  forall k, md_count md_dkey k (map fst (md_matched st))
+            = Nat.min (md_count md_dkey k ds) (md_count (md_tkey im) k ts).
+Proof. exact md_steps_count. Qed.
+Print Assumptions C15_match_decoy_count.
+
+(* the returned dict against the steps: one entry per matched decoy string, holding the target of its LAST matched
+   occurrence; with distinct decoys (picked_protein passes .unique()) the dict IS the list of matched pairs *)
+Theorem C15_match_decoy_dict : forall im perm ds ts m st,
+  md_match im perm ds ts = Ok m -> md_steps im perm ds ts = Ok st ->
+  NoDup (map fst m) /\
+  (forall d, In d (map fst m) <-> exists t, In (d, Some t) st) /\
+  (forall d t, In (d, t) m <-> md_lookup d (rev (md_matched st)) = Some t) /\
+  (NoDup ds -> m = md_matched st).
+Proof. exact md_match_dict. Qed.
+Print Assumptions C15_match_decoy_dict.
+
+(* the contract of the shuffle oracle is exactly what the model needs: a permutation of the positions *)
+Theorem C15_match_decoy_total : forall im perm ds ts,
+  Permutation perm (seq 0 (length ts)) <-> exists m, md_match im perm ds ts = Ok m.
+Proof. exact md_match_total. Qed.
+Print Assumptions C15_match_decoy_total.
+
+(* decoys AB BA AB BA CD Ab, targets BA AB AB(again) DC DDC bA: three targets of composition AB for four decoys (the
+   fourth goes without), the repeated decoy AB ends with the target of its second occurrence, "Ab" (key "Ab") does
+   not meet "bA" (key "Ab" as a target: sorted characters) *)
+Definition ex_md_ds : list str := [[65;66]; [66;65]; [65;66]; [66;65]; [67;68]; [65;98]].
+Definition ex_md_ts : list str := [[66;65]; [65;66]; [65;66]; [68;67]; [68;68;67]; [98;65]].
+Definition ex_md_perm : list nat := [4; 0; 5; 2; 1; 3]%nat.
+Example C15_ex_match_decoy :
+  md_steps true ex_md_perm ex_md_ds ex_md_ts
+  = Ok [([65;66], Some [65;66]); ([66;65], Some [66;65]); ([65;66], Some [65;66]); ([66;65], None);
+        ([67;68], Some [68;67]); ([65;98], Some [98;65])] /\
+  md_match true ex_md_perm ex_md_ds ex_md_ts
+  = Ok [([65;66], [65;66]); ([66;65], [66;65]); ([67;68], [68;67]); ([65;98], [98;65])] /\
+  Permutation ex_md_perm (seq 0 (length ex_md_ts)) /\
+  md_match true [0; 0; 1; 2; 3; 4]%nat ex_md_ds ex_md_ts = Err EValue /\
+  md_dkey [65;99;66] = [65;99;66] /\ md_tkey true [65;99;66] = [65;66;99].
+Proof.
+  split; [vm_compute; reflexivity|]. split; [vm_compute; reflexivity|].
+  split; [apply (proj1 (md_is_perm_spec _ _)); vm_compute; reflexivity|].
+  split; [vm_compute; reflexivity|]. split; vm_compute; reflexivity.
+Qed.
